@@ -328,6 +328,11 @@ class Run:
         for k, sc in enumerate(scs if spec != "Trace_Wire.tla" else []):
             for i, e in enumerate(sc):
                 if is_panic(e):
+                    # a delivery (apply_changes / load_incremental / merge) that crashes is also C05's business: a change
+                    # must be held back or applied, never bring the library down
+                    if self.pid == "C05" and e.get('ev') in ('deliver', 'merge'):
+                        self.violation(sc, f"{label}: event #{i+1} ({e.get('ev')}) of scenario {sc[0].get('scn')} panicked during a delivery: {e.get('res')}",
+                                       {"checks": ["panic-in-delivery"], "event": e, "scenario": sc, "index": i})
                     if self.pid == "C37":
                         self.violation(sc, f"{label}: event #{i+1} ({e.get('ev')}) of scenario {sc[0].get('scn')} panicked: {e.get('res')}",
                                        {"checks": ["panic"], "event": e, "scenario": sc, "index": i})
